@@ -118,7 +118,9 @@ def expected(keys, mode, name, normalization):
         return ("ok", ops)
     m = [o for o in ops if norm(o[2], normalization) == name]
     if not m:
-        return ("unjudged", None)
+        # documented: a name that selects nothing falls back to ALL operations - and then each module still has to
+        # belong to its own operation (constants, ResponseData, Variables)
+        return ("ok", ops)
     return ("ok", [m[0]])
 
 
@@ -152,7 +154,7 @@ def run(tier):
             for n in sorted(names):
                 sels.append(("derive", n, normalization))
             sels.append(("cli", None, normalization))
-            for n in sorted(set(opnames) | {camel(x) for x in opnames}):
+            for n in sorted(set(opnames) | {camel(x) for x in opnames} | {"Nope"}):
                 sels.append(("cli", n, normalization))
         if not canonical:
             # trivia documents: one matching selection per mode (the selection space is covered on the canonical ones)
@@ -309,5 +311,5 @@ def run(tier):
         "samples": pick_samples(samples, 6),
     }
     return rep.finish(cov, ["operation names are kept distinct after snake-casing",
-                            "a CLI call with an explicit name that matches no operation is documented to fall back to all operations and is not judged",
+                            "a CLI call with an explicit name that matches no operation is documented to fall back to all operations: judged as 'every operation, each module complete'",
                             "module names are predicted with a snake_case model for the simple identifiers of the alphabet"])
